@@ -1,4 +1,4 @@
-HOOK_COMMITS = []
+HOOK_COMMITS = ["c106a14"]
 
 ENGINES = [
     dict(name="pbt", path="harness/pbt", serves_properties=["C%02d" % i for i in range(1, 21)],
@@ -10,12 +10,3 @@ NOT_APPLICABLE = {
     "C%02d" % i: "check not built yet in this session (planned in DESIGN.md section 10); no claim is made" for i in range(1, 21)
 }
 
-META = {
-    "C16": dict(
-        engine="E3 pure PBT",
-        technique="property-based testing: print/parse round trip, three-parser differential, and match semantics against an independent backtracking regex matcher",
-        design_ref="DESIGN.md §4 C16",
-        level_text="Generated search (tens of thousands of matchers, input strings and (matcher, label set) pairs per run) against round-trip, differential and reference-model oracles; finds any disagreement that the generators reach, proves nothing beyond them.",
-        level_note="Trusted: Go regexp for patterns outside the generated grammar; brace-guard inputs are exempt for the single-matcher entry points by design of compat; names are non-empty.",
-    ),
-}
